@@ -1262,6 +1262,55 @@ func c10r17(c *Ctx, r *Report) {
 	r.floor("places where RangesToString prints Range.end", n, 1)
 }
 
+// c15r31: what printPrompt writes behind the prompt is limited to the width of the input area: the query by
+// updatePromptOffset, and the ghost text shown in place of an empty query by trimRight (D111: the ghost was
+// printed whole: in a list window narrower than the ghost it ran over the border and the preview window, and its
+// tail stayed there after typing).
+func c15r31(c *Ctx, r *Report) {
+	l := c.L
+	r.rule("C15-R31", "C (the ghost text is clipped to the input area)", "P1",
+		"in Terminal.printPrompt, every text printed that derives from Terminal.ghost has passed through Terminal.trimRight or Terminal.trimMessage",
+		"a --ghost text wider than the input area is drawn over the border and the neighbouring window, and is not erased when the query is typed")
+	fn := l.Fn("fzf", "(*Terminal).printPrompt")
+	fG := l.Field("fzf", "Terminal", "ghost")
+	if fn == nil || fG == nil {
+		r.unest("anchors", token.NoPos, nil, "anchors Terminal.printPrompt / Terminal.ghost", "cannot resolve")
+		return
+	}
+	n := 0
+	eachInstr(fn, func(in ssa.Instruction) {
+		call, ok := in.(*ssa.Call)
+		if !ok || !call.Common().IsInvoke() || !strings.HasSuffix(call.Common().Method.Name(), "Print") {
+			return
+		}
+		var text ssa.Value
+		if len(call.Call.Args) > 0 {
+			text = call.Call.Args[len(call.Call.Args)-1]
+		}
+		if text == nil {
+			return
+		}
+		fromGhost, clipped := false, false
+		for v := range backwardSlice(text, func(*ssa.CallCommon) bool { return true }, nil) {
+			if f, _ := loadedField(v); f == fG {
+				fromGhost = true
+			}
+			if c2, ok := v.(*ssa.Call); ok {
+				if sc := c2.Common().StaticCallee(); sc != nil && (sc.Name() == "trimRight" || sc.Name() == "trimMessage") {
+					clipped = true
+				}
+			}
+		}
+		if !fromGhost {
+			return
+		}
+		n++
+		r.check(clipped, fmt.Sprintf("%s:ghost text #%d is clipped", relName(fn), n), call.Pos(), fn,
+			"through trimRight / trimMessage", "the ghost text is printed at its full length, whatever the width of the input area")
+	})
+	r.floor("prints of the ghost text in printPrompt", n, 1)
+}
+
 func round11(c *Ctx, r *Report, prop string) {
 	switch prop {
 	case "C01":
@@ -1303,6 +1352,7 @@ func round11(c *Ctx, r *Report, prop string) {
 		c15r28(c, r)
 		c15r29(c, r)
 		c15r30(c, r)
+		c15r31(c, r)
 	case "C16":
 		c16r22(c, r)
 	case "C17":
